@@ -572,3 +572,43 @@ def run(tier, replay=None):
         rule="framing: every split of 1-3 short frames into <=3 reads (step 1 in thorough), seeded random cuts of long frames into <=40 reads, "
              "truncated streams; live: seeded remote operations of every form against a twin interpreter. distinct = distinct (kind, chunk-length vector) / (form, text)",
         trusted_base=TRUSTED, assumptions=ASSUME)
+
+
+# ---------------------------------------------------------------- replay
+def replay(path):
+    """Re-execute one replay file against the implementation and print expected vs actual."""
+    r = json.load(open(path))
+    body = r.get("replay", {})
+    kind = body.get("kind")
+    print("replaying %s (%s): %s" % (path, kind, r.get("what")))
+    if kind == "framing" and isinstance(body.get("chunks_hex"), list):
+        chunks = [bytes.fromhex(h) for h in body["chunks_hex"]]
+        delivered, st, per_chunk = impl_feed(chunks)
+        print("expected delivered frames: %s" % body.get("expected_delivered"))
+        print("actual   delivered frames: %d  (after each read: %s)  end=%s" % (len(delivered), per_chunk, st))
+        chk = Check("C13", "quick")
+        chk.generate(generate()); chk.build_model()
+        print("model: %s" % sx(chk.run_model([sx(["feed", [list(c) for c in chunks]])])[0])[:600])
+        return 0 if len(delivered) == body.get("expected_delivered") else 1
+    if kind == "live":
+        # one remote operation of the recorded form against a live server and its twin, after the same fixed set-up
+        script = LIVE_SCRIPT % {"verif": VERIF}
+        env = dict(os.environ, PYTHONPATH=REPO + ":" + VERIF, PYTHONHASHSEED="0")
+        p = subprocess.run([PY, "-W", "ignore", "-c", script, "17", "0", str(21000 + os.getpid() % 20000)],
+                           stdout=subprocess.PIPE, stderr=subprocess.PIPE, env=env, timeout=600)
+        lines = [l for l in p.stdout.decode().split("\n") if l.startswith("RESULTS ")]
+        res = json.loads(lines[0][8:]) if lines else []
+        hit = [x for x in res if x["form"] == body.get("form") and x["text"] == body.get("text")]
+        bad = [x for x in res if x["remote"] != x["local"]]
+        print("recorded: form=%s text=%s remote=%s server_local=%s" % (body.get("form"), body.get("text"), body.get("remote"), body.get("server_local")))
+        for x in (hit or bad)[:5]:
+            print("now     : form=%s text=%s remote=%s server_local=%s" % (x["form"], x["text"], x["remote"], x["local"]))
+        if not hit and not bad:
+            print("the deterministic prelude of the live differential shows no difference now (the recorded case came from the seeded part; rerun ./check C13 with the same VERIF_SEED)")
+        return 1 if any(x["remote"] != x["local"] for x in (hit or bad)) else 0
+    if kind == "concurrent-senders":
+        print(json.dumps(body, indent=1))
+        print("rerun: ./check C13 quick (the sender schedules are derived from VERIF_SEED)")
+        return 0
+    print(json.dumps(r, indent=1)[:3000])
+    return 0
